@@ -86,8 +86,8 @@ T1_FILES = {
     'Properties/T1Expr.v': ['C07', 'C10'],
     'Proofs/GenIoCsvProofs.v': ['C12', 'C13', 'C17'],
     'Properties/T1IoCsv.v': ['C12', 'C13', 'C17'],
-    'Proofs/GenEnumFacProofs.v': ['C17', 'C14', 'C13'],
-    'Properties/T1Enum.v': ['C17', 'C14', 'C13'],
+    'Proofs/GenEnumFacProofs.v': ['C17', 'C14', 'C13', 'C09'],
+    'Properties/T1Enum.v': ['C17', 'C14', 'C13', 'C09'],
 }
 # the files of translation theorems whose statements count as obligations of a property (re-checked with it)
 T1_PROP_FILES = {
